@@ -26,6 +26,63 @@ impl<'a> ParamParser<'a> {
     }
 }
 
+impl<'a> ParamParser<'a> {
+    /// Check that the parameter block sent by the client can be decoded, so that iterating over
+    /// the parameters later cannot fail: the NULL bitmap and (if present) the type table must be
+    /// complete, every bound type must be known, a type must be bound for every parameter, and
+    /// every value that is neither NULL nor supplied as long data must be complete.
+    pub(crate) fn validate(&self) -> std::io::Result<()> {
+        use std::io;
+        let bad = |what: &str| {
+            io::Error::new(
+                io::ErrorKind::InvalidData,
+                format!("malformed parameters in COM_STMT_EXECUTE: {}", what),
+            )
+        };
+        let params = self.params as usize;
+        let nullmap_len = (params + 7) / 8;
+        if self.bytes.len() < nullmap_len {
+            return Err(bad("NULL bitmap is truncated"));
+        }
+        let (nullmap, rest) = self.bytes.split_at(nullmap_len);
+        let mut input = rest;
+        let mut new_types = Vec::new();
+        if !rest.is_empty() && rest[0] != 0x00 {
+            if rest.len() - 1 < 2 * params {
+                return Err(bad("type table is truncated"));
+            }
+            let (typmap, rest) = rest[1..].split_at(2 * params);
+            for i in 0..params {
+                new_types.push((
+                    myc::constants::ColumnType::try_from(typmap[2 * i])
+                        .map_err(|_| bad("unknown column type"))?,
+                    (typmap[2 * i + 1] & 128) != 0,
+                ));
+            }
+            input = rest;
+        } else {
+            if !rest.is_empty() {
+                input = &rest[1..];
+            }
+            new_types.extend(self.bound_types.iter().cloned());
+        }
+        for col in 0..params {
+            let pt = new_types
+                .get(col)
+                .ok_or_else(|| bad("no type has been bound for a parameter"))?;
+            if (nullmap[col / 8] & 1u8 << (col % 8)) != 0 {
+                continue;
+            }
+            if self.long_data.contains_key(&(col as u16)) {
+                continue;
+            }
+            Value::parse_from(&mut input, pt.0, pt.1)
+                .map_err(|_| bad("a value is truncated or of an unsupported type"))?;
+        }
+        Ok(())
+    }
+}
+
 impl<'a> IntoIterator for ParamParser<'a> {
     type IntoIter = Params<'a>;
     type Item = ParamValue<'a>;
